@@ -289,11 +289,49 @@ def MaxPrefixLemma(ps: "Seq[Path]") -> "Bool":
                and not exists(lambda p: p in ps and ProperPrefix(mx, p)))), triggers=[(MaxPrefixLemma(ps), x in ps)]))
 
 
+@ghost(least_fixpoint=True)
+def TReach(g: "Graph", a: "Node", b: "Node") -> "Bool":
+    """the textbook all-reachable relation: reflexive-transitive closure of the edge relation m -> w (m a key, w in g[m]);
+    targets need not be keys, and every vertex reaches itself"""
+    rule("base", forall(lambda g, n: TReach(g, n, n)))
+    rule("step", forall(lambda g, n, m, w: implies(TReach(g, n, m) and m in g and w in g[m], TReach(g, n, w))))
+
+
+@ghost
+def ReachIsOnSimplePath(g: "Graph", a: "Node", n: "Node") -> "Bool":
+    """lean/SimplePath.lean (theorem reach_iff_on_simple_path, checked by `lean` in the thorough tier): a vertex is reachable
+    iff it lies on a simple path from the start (loop erasure; an induction the solver cannot do).  The Lean statement is about
+    an arbitrary relation E and lists a :: l; here E m w is `m in g and w in g[m]` and the list is the sequence q of PathExt
+    (prefix [a], no vertex twice, consecutive vertices joined by an edge): correspondence by hand.
+    The predicate is true of all arguments; it only serves as the trigger of the lemma (instantiating the lemma for every
+    derived TReach term would build a new path for every reachable vertex, and so on: a matching loop)."""
+    axiom("holds-of-all-arguments", forall(lambda g, a, n: ReachIsOnSimplePath(g, a, n), triggers=[ReachIsOnSimplePath(g, a, n)]))
+    axiom("reach-iff-on-a-simple-path", forall(lambda g, a, n: implies(
+        ReachIsOnSimplePath(g, a, n),
+        TReach(g, a, n) == exists(lambda q: typed(q, "Path") and PathExt(g, Prefix(None, a), q) and n in q)),
+        triggers=[ReachIsOnSimplePath(g, a, n)]))
+
+
 @contract("src.graph_utils.find_all_reachable")
 def _(graph: "Graph", vertex: "Node") -> "Set[Node]":
-    """exactly the vertices that lie on a simple path starting at `vertex`"""
+    """exactly the vertices that lie on a simple path starting at `vertex` = exactly the vertices reachable from it"""
     ensures("exact", forall(lambda n: (n in result) == exists(
         lambda q: q in find_all_paths(graph, vertex, None) and n in q)))
+    ensures("closure-sound", forall(lambda n: implies(n in result, TReach(graph, vertex, n))))
+    ensures("closure-complete", forall(lambda n: implies(TReach(graph, vertex, n), n in result)))
+    return_hint(lemma("on-simple-paths", forall(lambda n: (n in res) == exists(
+        lambda q: q in find_all_paths(graph, vertex, None) and n in q))))
+    return_hint(lemma("reachable-means-on-a-simple-path", forall(lambda n: implies(
+        TReach(graph, vertex, n) and ReachIsOnSimplePath(graph, vertex, n),
+        exists(lambda q: PathExt(graph, Prefix(None, vertex), q) and n in q)),
+        triggers=[TReach(graph, vertex, n)])))
+    return_hint(lemma("on-a-simple-path-means-reachable", forall(lambda n, q: implies(
+        PathExt(graph, Prefix(None, vertex), q) and n in q and ReachIsOnSimplePath(graph, vertex, n),
+        TReach(graph, vertex, n)), triggers=[(PathExt(graph, Prefix(None, vertex), q), n in q)])))
+    # the completeness clause of find_all_paths' contract, re-stated with a single trigger
+    return_hint(lemma("every-simple-path-is-listed", forall(lambda q: implies(
+        PathExt(graph, Prefix(None, vertex), q), q in find_all_paths(graph, vertex, None)),
+        triggers=[PathExt(graph, Prefix(None, vertex), q)])))
     local(res="Set[Node]")
     entry_hint(lemma("finite-list", MaxPrefixLemma(find_all_paths(graph, vertex, None))))
     with loop("0"):
